@@ -31,6 +31,45 @@ type TrieSpec struct {
 	Hash   string `json:"hash"` // ped | pos
 	Height int    `json:"height"`
 	KVs    []KV   `json:"kvs"`
+	// History != 0: the trie is not built by inserting KVs once but through a history that ends in the
+	// same key/value set: other values first, extra keys inserted and deleted again, a commit / rehash in
+	// the middle (trie2db: commit, reopen, and for even seeds the second half stays uncommitted on top)
+	History uint64 `json:"history,omitempty"`
+}
+
+// history returns the two phases of writes (value "0" = delete) that end in s.KVs.
+func (s *TrieSpec) history() (phase1, phase2 []KV) {
+	if s.History == 0 {
+		return nil, s.KVs
+	}
+	r := lib.NewRNG(s.History)
+	for _, kv := range s.KVs {
+		if r.Bool() {
+			phase1 = append(phase1, KV{K: kv.K, V: genValue(r)}) // overwritten later
+		}
+	}
+	var extras []string
+	for i := 0; i < 1+r.Intn(4); i++ {
+		k := randBits(r, s.Height)
+		if len(s.KVs) > 0 && r.Bool() {
+			k = divergingKey(r, lib.Pick(r, s.KVs).K, pickDepth(r, s.Height))
+		}
+		if s.truth(k) == "0" {
+			extras = append(extras, k)
+			phase1 = append(phase1, KV{K: k, V: genValue(r)})
+		}
+	}
+	lib.Shuffle(r, phase1)
+	for _, k := range extras {
+		phase2 = append(phase2, KV{K: k, V: "0"})
+	}
+	phase2 = append(phase2, s.KVs...)
+	lib.Shuffle(r, phase2)
+	// a deleted extra that is re-deleted, a final value written twice
+	if len(phase2) > 0 {
+		phase2 = append(phase2, phase2[r.Intn(len(phase2))])
+	}
+	return phase1, phase2
 }
 
 func (s *TrieSpec) verifier() string {
@@ -71,10 +110,18 @@ func buildTrie(s *TrieSpec) (bt *builtTrie, err error) {
 		if err != nil {
 			return nil, err
 		}
-		for _, kv := range s.KVs {
-			k, v := bitsToFelt(kv.K), hexFelt(kv.V)
-			if _, err := t.Put(&k, &v); err != nil {
-				return nil, err
+		phase1, phase2 := s.history()
+		for pi, phase := range [][]KV{phase1, phase2} {
+			for _, kv := range phase {
+				k, v := bitsToFelt(kv.K), hexFelt(kv.V)
+				if _, err := t.Put(&k, &v); err != nil {
+					return nil, err
+				}
+			}
+			if pi == 0 && len(phase1) > 0 {
+				if err := t.Commit(); err != nil {
+					return nil, err
+				}
 			}
 		}
 		if err := t.Commit(); err != nil {
@@ -107,10 +154,18 @@ func buildTrie(s *TrieSpec) (bt *builtTrie, err error) {
 		var t *trie2.Trie
 		if s.Impl == "trie2" {
 			t = trie2.NewEmpty(uint8(s.Height), hf)
-			for _, kv := range s.KVs {
-				k, v := bitsToFelt(kv.K), hexFelt(kv.V)
-				if err := t.Update(&k, &v); err != nil {
-					return nil, err
+			phase1, phase2 := s.history()
+			for pi, phase := range [][]KV{phase1, phase2} {
+				for _, kv := range phase {
+					k, v := bitsToFelt(kv.K), hexFelt(kv.V)
+					if err := t.Update(&k, &v); err != nil {
+						return nil, err
+					}
+				}
+				if pi == 0 && len(phase1) > 0 {
+					if _, err := t.Hash(); err != nil { // caches hashes that the second half invalidates
+						return nil, err
+					}
 				}
 			}
 		} else {
@@ -122,25 +177,36 @@ func buildTrie(s *TrieSpec) (bt *builtTrie, err error) {
 			if err != nil {
 				return nil, err
 			}
-			for _, kv := range s.KVs {
-				k, v := bitsToFelt(kv.K), hexFelt(kv.V)
-				if err := t0.Update(&k, &v); err != nil {
-					return nil, err
+			commit := func(tt *trie2.Trie) (*trie2.Trie, error) {
+				root, nodes := tt.Commit()
+				if nodes != nil {
+					batch := disk.NewBatch()
+					r := felt.StateRootHash(root)
+					if err := tdb.Update(&r, &r, 0, nil, trienode.NewMergeNodeSet(nodes), batch); err != nil {
+						return nil, err
+					}
+					if err := batch.Write(); err != nil {
+						return nil, err
+					}
 				}
+				return trie2.New(id, uint8(s.Height), hf, tdb)
 			}
-			root, nodes := t0.Commit()
-			if nodes != nil {
-				batch := disk.NewBatch()
-				r := felt.StateRootHash(root)
-				if err := tdb.Update(&r, &r, 0, nil, trienode.NewMergeNodeSet(nodes), batch); err != nil {
-					return nil, err
+			phase1, phase2 := s.history()
+			t = t0
+			for pi, phase := range [][]KV{phase1, phase2} {
+				for _, kv := range phase {
+					k, v := bitsToFelt(kv.K), hexFelt(kv.V)
+					if err := t.Update(&k, &v); err != nil {
+						return nil, err
+					}
 				}
-				if err := batch.Write(); err != nil {
-					return nil, err
+				// commit + reopen after the first half; after the second half too, except for even history
+				// seeds, where the second half stays as uncommitted updates on top of the db-backed trie
+				if (pi == 0 && len(phase1) > 0) || (pi == 1 && (s.History == 0 || s.History%2 == 1)) {
+					if t, err = commit(t); err != nil {
+						return nil, err
+					}
 				}
-			}
-			if t, err = trie2.New(id, uint8(s.Height), hf, tdb); err != nil {
-				return nil, err
 			}
 		}
 		root, err := t.Hash()
